@@ -143,6 +143,11 @@ step_alloc_harness!(c01_l3_step_alloc_len17, 17, IdealAeadBig);
 #[kani::proof]
 #[kani::unwind(20)]
 #[kani::stub(zeroize::optimization_barrier, noop_barrier)]
+#[kani::stub(hkdf::HkdfExtract::new, crate::fasthkdf::stub_extract_new)]
+#[kani::stub(hkdf::HkdfExtract::input_ikm, crate::fasthkdf::stub_input_ikm)]
+#[kani::stub(hkdf::HkdfExtract::finalize, crate::fasthkdf::stub_finalize)]
+#[kani::stub(hkdf::Hkdf::from_prk, crate::fasthkdf::stub_from_prk)]
+#[kani::stub(hkdf::Hkdf::expand_multi_info, crate::fasthkdf::stub_expand_multi_info)]
 pub fn c01_l2_setup_agreement() {
     let bytes: [u8; RNG_CAP] = kani::any();
     let mut rng = ScriptRng::new(bytes);
